@@ -17,6 +17,7 @@ from mc.engine import ok, bad, unspecified
 from mc.common import call, Raised, DimArray, py, same_scalar, same_list
 
 ID = "C17"
+OEO = True      # a third of the cases get a second pass on the same array after an in-place edit (engine._oeo)
 VARIANT_SWEEP = True      # thorough tier: every case on every history variant of its array (see mc/domains.py VSHIFT)
 TITLE = "axis-wise selection and missing values keep slices with labels"
 RULE = ("product of (arrays 1-4D with unsorted int/float/str labels, int and float data, EVERY NaN pattern for arrays of <= 6 cells and "
